@@ -12,7 +12,16 @@ Ovba.decompress):
     that reach exactly 4096 bytes out / 4096 bytes in, chunk ends on a flag-byte boundary.
   * malformed containers (truncation at every length, corrupted headers / flag bytes / tokens,
     out-of-range offsets, short raw chunks, garbage): outcome classes ok-bytes / err / panic of
-    model and code must agree — the model predicts the panics.
+    model and code must agree (since the C06 hardening the model proves — C18_no_panic_decompress,
+    C18_no_panic_dir — that no input panics: a "panic" answer of the code is a disagreement).
+  * whole projects (vba.rs): random project descriptions -> dir stream from the EXTRACTED writer
+    OvbaDir.encode_dir, compressed by the extracted container writer, inside a generated compound
+    file -> VbaProject::new and Reader::vba_project of Xlsx/Xlsb/Xls; expected = the extracted
+    spec OvbaDir.expected_refs + the generator's sources decoded with the project's code page.
+    References with and without their optional NameRecord (first, middle, last, runs, all; the
+    three reference kinds).  Code pages: single-byte ones through their full 256-entry table;
+    the multi-byte ones 932, 936 and 65001 through Python's codecs on text that is valid in the
+    code page (characters on which Python and encoding_rs agree: see MB_ALPHABETS).
 """
 import os, struct
 import vlib
@@ -20,6 +29,8 @@ import vlib
 ASSUMPTIONS = [
     "a compressed container is valid when every chunk is: raw chunks carry exactly 4096 bytes (MS-OVBA pads the last one), token chunks respect the per-position offset/length limits, produce at most 4096 bytes and occupy at most 4098 bytes",
     "the read cursor of decompress_stream is modelled as the remaining suffix of the input, the output Vec as a reversed list plus its length (representation only; tied by the correspondence run)",
+    "the code-page decoder is a parameter of the model (all theorems are for every decoder); the correspondence instantiates it with the full 256-entry table for single-byte code pages and, for 932 / 936 / 65001, with Python's cp932 / gbk / utf-8 codecs on text built from a fixed alphabet valid in the code page (where Python and encoding_rs agree); mutated dir streams keep the original PROJECTCODEPAGE value because the decoder handed to the model is the one of that code page",
+    "MS-OVBA 2.3.4.2.2.1: the NameRecord of a REFERENCE is optional; a reference written without it is expected in the list with the empty name",
 ]
 
 CHUNK = 4096
@@ -126,6 +137,9 @@ def gen_source(rng, size, kind):
             except UnicodeDecodeError:
                 out = out[:-1]
         return bytes(out) or b"x"
+    if kind == "bom":             # text starting with bytes that look like a byte-order mark: they are
+        head = rng.choice([b"\xef\xbb\xbf", b"\xff\xfe", b"\xfe\xff"])   # text of the code page, not a BOM
+        return (head + gen_source(rng, size, "vba"))[:size]
     # "vba": text-like
     out = bytearray()
     while len(out) < size:
@@ -573,7 +587,7 @@ def run_codec(ctx, n):
 
 # ------------------------------------------------------------------ whole projects (vba.rs)
 FREE, EOC, FATS = 0xFFFFFFFF, 0xFFFFFFFE, 0xFFFFFFFD
-KNOWN_DIR = {"1": "nameless_reference"}   # Ovba.known_C18_dir class -> finding id
+KNOWN_DIR = {}   # OvbaDir.known_C18_dir class -> finding id (no class left: nameless_reference was fixed)
 
 def cfb_write(streams, rng, version=3, shuffle=True, decoys=True, extra_entries=()):
     """minimal compound-file writer (flat directory: calamine looks streams up by name only);
@@ -676,21 +690,98 @@ CODEPAGES = {1252: sb_table("cp1252"), 1251: sb_table("cp1251"), 1250: sb_table(
              1253: sb_table("cp1253"), 28591: sb_table("cp1252"), 874: None, 932: None, 65001: None, 936: None}
 UNKNOWN_CODEPAGES = [437, 0, 1, 850, 10001, 65000]
 
+# multi-byte code pages: Python codec + characters whose encoding Python's codec and encoding_rs
+# (WHATWG Shift_JIS / GBK / UTF-8) read alike.  Deliberately included: Shift_JIS characters whose
+# trail byte is an ASCII value (ソ 83 5C, 表 95 5C, 能 94 5C, 予 97 5C, ポ 83 7C, ― 81 5C), half-width
+# katakana (single bytes A1..DF), GBK trail bytes in 40..7E, UTF-8 sequences of 2, 3 and 4 bytes.
+MB_ALPHABETS = {
+    932: ("cp932", "あいうえおかきくけこさしすせそぁんアイウエオソポマクロ日本語表示能力予定変数値開始終了―、。「」ＡＢＣ１２３ｱｲｳｴｵｶﾞﾊﾟｿ"),
+    936: ("gbk", "中文宏模块变量显示开始结束值数字符串工作簿单元格，。：；（）ＡＢＣ１２３乂亍丂丄"),
+    65001: ("utf-8", "éèüßÃ©ΩжЯ€—“”日本語中文한글ｱ😀𝒳\u00a0\u200b"),
+}
+for _cp, (_codec, _chars) in MB_ALPHABETS.items():
+    for _c in _chars:                      # every character survives a round trip in Python's codec
+        assert _c.encode(_codec).decode(_codec) == _c, (_cp, _c)
+
+def mb_of(high):
+    return high if isinstance(high, tuple) else None
+
 def hx(b):
     return b.hex() if b else "-"
 
 IDENT = b"abcdefghijklmnopqrstuvwxyzABCDEFGHIJKLMNOPQRSTUVWXYZ0123456789_"
+def bmp(chars):
+    return [c for c in chars if ord(c) < 0x10000]
+
 def gen_name(rng, high, lo=1, hi=14):
+    """high: False (ASCII), True (single-byte code page: high bytes too) or (codec, chars) for a
+    multi-byte code page (names stay inside the BMP: compound-file entry names are UTF-16)"""
     n = rng.randrange(lo, hi + 1)
+    if mb_of(high):
+        codec, chars = high
+        return "".join(rng.choice(bmp(chars)) if rng.random() < 0.5 else chr(rng.choice(IDENT))
+                       for _ in range(n)).encode(codec)
     alpha = IDENT + (bytes(range(0xC0, 0x100)) if high else b"")
     return bytes(rng.choice(alpha) for _ in range(n))
 
+TEXT_ASCII = b" abcdefghijklmnopqrstuvwxyz.:\\{}-0123456789()"
 def gen_text(rng, high, n):
-    alpha = b" abcdefghijklmnopqrstuvwxyz.:\\{}-0123456789()" + (bytes(range(0xA1, 0x100)) if high else b"")
+    if mb_of(high):
+        codec, chars = high
+        return "".join(rng.choice(chars) if rng.random() < 0.4 else chr(rng.choice(TEXT_ASCII))
+                       for _ in range(n)).encode(codec)
+    alpha = TEXT_ASCII + (bytes(range(0xA1, 0x100)) if high else b"")
     return bytes(rng.choice(alpha) for _ in range(n))
 
-def u16le(b, table):
-    return "".join(chr(table[x]) for x in b).encode("utf-16le")
+def gen_mb_source(rng, total, high, kind):
+    """module source of exactly [total] bytes that is valid text in the multi-byte code page"""
+    codec, chars = high
+    out = bytearray()
+    if kind == "bom" and codec == "utf-8" and total >= 3:
+        out += b"\xef\xbb\xbf"            # decode_all does no BOM handling: U+FEFF stays in the text
+    while len(out) < total:
+        r = rng.random()
+        if r < 0.45:
+            piece = rng.choice(KEYWORDS)
+        elif r < 0.9:
+            piece = "".join(rng.choice(chars) for _ in range(rng.randrange(1, 6))).encode(codec)
+        else:
+            piece = rng.choice(chars).encode(codec) * rng.randrange(3, 40)   # redundancy: copy tokens inside characters
+        if len(out) + len(piece) <= total:
+            out += piece
+        else:
+            out += b" " * (total - len(out))
+    return bytes(out)
+
+def make_decoder(table, high):
+    """bytes -> str as the project's code page reads them (the oracle of this generator)"""
+    if mb_of(high):
+        codec = high[0]
+        return lambda b: b.decode(codec)
+    return lambda b: "".join(chr(table[x]) for x in b)
+
+# where the references without NameRecord go (MS-OVBA 2.3.4.2.2.1: the NameRecord is optional)
+NAMELESS_PATTERNS = ["none", "none", "none", "rare", "first", "last", "middle", "run", "half", "all"]
+def nameless_flags(rng, n, pattern):
+    if n == 0 or pattern == "none":
+        return [False] * n
+    if pattern == "rare":
+        return [rng.random() < 0.08 for _ in range(n)]
+    if pattern == "first":
+        return [k == 0 for k in range(n)]
+    if pattern == "last":
+        return [k == n - 1 for k in range(n)]
+    if pattern == "middle":
+        m = rng.randrange(1, n - 1) if n >= 3 else n // 2
+        return [k == m for k in range(n)]
+    if pattern == "run":
+        ln = rng.randrange(2, max(3, n + 1)) if n >= 2 else 1
+        ln = min(ln, n)
+        a = rng.randrange(0, n - ln + 1)
+        return [a <= k < a + ln for k in range(n)]
+    if pattern == "half":
+        return [rng.random() < 0.5 for _ in range(n)]
+    return [True] * n
 
 def gen_libid(rng, high, flavour=None):
     flavour = flavour or rng.choice(["std", "std", "std", "nopath", "empty", "hh", "onehash", "nohash", "manyhash"])
@@ -721,8 +812,15 @@ def gen_project(rng, pid, tier, single_byte_only=False):
             cp = rng.choice([1252, 1252, 1251, 1250, 1253, 28591])   # is exact only for these
         table = CODEPAGES[cp]
     high = table is not None and rng.random() < 0.5
+    if table is None and cp in MB_ALPHABETS and not single_byte_only and rng.random() < 0.85:
+        high = MB_ALPHABETS[cp]                # multi-byte text, decoded by Python's codec
     tbl = table or list(range(256))
     dec = "id" if table is None else "".join("%04x" % c for c in table)
+    decode = make_decoder(tbl, high)
+    decoded = set()                            # the byte strings the reader decodes (for "map:")
+    def D(b):
+        decoded.add(bytes(b)); return b
+    u16le = lambda b, _t: decode(b).encode("utf-16le")
     B = lambda n=12: gen_text(rng, high, rng.randrange(0, n))
     info = ["I", str(rng.randrange(4)), "~" if rng.random() < 0.5 else str(rng.randrange(2 ** 32)),
             str(rng.choice([0x409, 0x40C, 0])), str(0x409), str(cp),
@@ -730,49 +828,61 @@ def gen_project(rng, pid, tier, single_byte_only=False):
             str(rng.randrange(2 ** 32)), str(rng.randrange(2 ** 32)), str(rng.randrange(2 ** 32)),
             str(rng.randrange(2 ** 16)), hx(B(40)), hx(u16le(B(10), tbl)), str(rng.randrange(2 ** 16))]
     secs = [" ".join(info)]
-    nrefs = rng.choice([0, 1, 2, 2, 3, 5])
+    nrefs = rng.choice([0, 1, 2, 2, 3, 3, 5, 8])
     odd_libid = rng.random() < 0.25
-    for _ in range(nrefs):
-        name = gen_name(rng, high) if rng.random() > 0.03 else b""
+    pattern = rng.choice(NAMELESS_PATTERNS)
+    nameless = nameless_flags(rng, nrefs, pattern)
+    ref_tags = ["refs_nameless_pattern:" + (pattern if nrefs else "no_refs")]
+    for ri in range(nrefs):
+        name = D(gen_name(rng, high)) if rng.random() > 0.03 else b""
         nameu = u16le(name, tbl)
-        named = "0" if rng.random() < 0.03 else "1"     # REFERENCE without its optional NameRecord
+        named = "0" if nameless[ri] else "1"            # REFERENCE without its optional NameRecord
         fl = None if odd_libid else "std"
         kind = rng.choice(["G", "G", "J", "C", "C"])
+        if nameless[ri]:
+            ref_tags.append("nameless_ref:%s:%s" % (kind, "first" if ri == 0 else "last" if ri == nrefs - 1 else "middle"))
+            if ri and nameless[ri - 1]:
+                ref_tags.append("nameless_ref:after_nameless")
         if kind == "G":
-            secs.append(" ".join(["G", named, hx(name), hx(nameu), hx(gen_libid(rng, high, fl))]))
+            secs.append(" ".join(["G", named, hx(name), hx(nameu), hx(D(gen_libid(rng, high, fl)))]))
         elif kind == "J":
             pre = rng.choice([b"*\\C", b"*\\C", b"*\\H", b"*\\A", b"", b"*\\c"])
-            secs.append(" ".join(["J", named, hx(name), hx(nameu), hx(pre + b"C:\\proj\\" + gen_name(rng, high) + b".xlsm"),
+            secs.append(" ".join(["J", named, hx(name), hx(nameu), hx(D(pre + b"C:\\proj\\" + gen_name(rng, high) + b".xlsm")),
                                   hx(pre + gen_name(rng, high)), str(rng.randrange(2 ** 32)), str(rng.randrange(2 ** 16))]))
         else:
             ext = rng.random() < 0.5
             en = gen_name(rng, high)
             secs.append(" ".join(["C", named, hx(name), hx(nameu),
-                                  hx(gen_libid(rng, high, fl)) if rng.random() < 0.5 else "~",
-                                  hx(gen_libid(rng, high, fl)),
+                                  hx(D(gen_libid(rng, high, fl))) if rng.random() < 0.5 else "~",
+                                  hx(D(gen_libid(rng, high, fl))),
                                   hx(en) if ext else "~", hx(u16le(en, tbl)) if ext else "~",
-                                  hx(gen_libid(rng, high, fl)), bytes(rng.randrange(256) for _ in range(16)).hex(),
+                                  hx(D(gen_libid(rng, high, fl))), bytes(rng.randrange(256) for _ in range(16)).hex(),
                                   str(rng.randrange(2 ** 32))]))
     nmods = rng.choice([0, 1, 1, 2, 3, 5])
     bodies, used_streams, names = [], set(), []
     for mi in range(nmods):
-        name = gen_name(rng, high)
+        name = D(gen_name(rng, high))
         if names and rng.random() < 0.04:
             name = rng.choice(names)             # duplicate module name: the last one wins
         names.append(name)
         sname = gen_name(rng, high, 1, 20)
         while sname in used_streams or sname == b"dir" or sname.upper() in (b"VBA", b"PROJECT", b"_VBA_PROJECT"):
             sname = gen_name(rng, high, 2, 20)
-        used_streams.add(sname)
+        used_streams.add(D(sname))
         pcode = bytes(rng.randrange(256) for _ in range(rng.choice([0, 1, 7, 100, 900, 3000, 5000])))
         nch = rng.choice([0, 1, 1, 1, 2, 3]) if tier == "thorough" else rng.choice([0, 1, 1, 1, 2])
         chunks, source = [], bytearray()
-        kind = rng.choice(["vba", "vba", "period", "alpha", "random", "utf8"])
+        kind = rng.choice(["vba", "vba", "period", "alpha", "random", "utf8", "bom"])
+        sizes = [(rng.choice([1, 8, 40, 300, 1200, 4096]) if ci == nch - 1 else CHUNK) for ci in range(nch)]
+        whole = gen_mb_source(rng, sum(sizes), high, kind) if mb_of(high) else None
         for ci in range(nch):
             last = ci == nch - 1
-            size = rng.choice([1, 8, 40, 300, 1200, 4096]) if last else CHUNK
-            data = gen_source(rng, size, kind)
-            if table is None:                    # multi-byte code page: keep the text ASCII
+            size = sizes[ci]
+            if whole is not None:                # multi-byte text, cut into chunks wherever the
+                data = whole[sum(sizes[:ci]):sum(sizes[:ci + 1])]   # 4096-byte boundary falls
+            else:
+                data = gen_source(rng, size, kind)
+            if table is None and whole is None:  # multi-byte code page without codec oracle: ASCII
                 data = bytes(x & 0x7F for x in data)
             mode = rng.choice(["lit", "greedy", "rand", "overlap", "far"] + (["raw"] if size == CHUNK else []))
             if mode == "lit" and size + (size + 7) // 8 > CHUNK:
@@ -783,12 +893,15 @@ def gen_project(rng, pid, tier, single_byte_only=False):
         secs.append(" ".join(["M", hx(name), hx(u16le(name, tbl)), hx(sname), hx(u16le(sname, tbl)),
                               hx(B(20)), hx(u16le(B(8), tbl)), str(len(pcode)), str(rng.randrange(2 ** 32)),
                               str(rng.randrange(2 ** 16)), str(rng.randrange(2)), str(rng.randrange(2)), str(rng.randrange(2))]))
-        bodies.append({"name": name, "stream": sname, "pcode": pcode, "chunks": chunks, "source": bytes(source)})
-    return {"pid": pid, "desc": "|".join(secs), "dec": dec, "table": tbl, "cp": cp, "bodies": bodies,
-            "cp_known": table is not None or cp in CODEPAGES}
+        bodies.append({"name": name, "stream": sname, "pcode": pcode, "chunks": chunks, "source": D(bytes(source))})
+    if mb_of(high):
+        dec = "map:" + ",".join("%s=%s" % (b.hex(), decode(b).encode("utf-8").hex()) for b in sorted(decoded) if b)
+        ref_tags.append("project_text:multibyte_%d" % cp)
+    return {"pid": pid, "desc": "|".join(secs), "dec": dec, "table": tbl, "decode": decode, "cp": cp, "bodies": bodies,
+            "cp_known": table is not None or cp in CODEPAGES, "tags": ref_tags}
 
-def scalars_hex(b, table):
-    return "".join(chr(table[x]) for x in b).encode("utf-8").hex()
+def scalars_hex(b, p):
+    return p["decode"](b).encode("utf-8").hex()
 
 def build_project_cases(ctx, projs, mutate):
     """dir stream from the extracted writer, compression by the extracted container writer,
@@ -818,6 +931,12 @@ def build_project_cases(ctx, projs, mutate):
                     i = rng.randrange(len(b) - 4); b[i:i + 4] = struct.pack("<I", rng.choice([0, 1, 5, 0xFFFF, 0x7FFFFFFF, 0xFFFFFFFF, len(b)]))
                 else:
                     b += bytes(rng.randrange(256) for _ in range(rng.randrange(1, 9)))
+                # the decoder handed to the model is the table of the ORIGINAL code page: a mutation
+                # that turns the PROJECTCODEPAGE value into another supported code page would only
+                # test this oracle, so these two bytes are put back
+                cpo = 10 + (10 if dirb[10:12] == b"\x4a\x00" else 0) + 20 + 6
+                if len(b) >= cpo + 2 and bytes(b[cpo:cpo + 2]) != dirb[cpo:cpo + 2]:
+                    b[cpo:cpo + 2] = dirb[cpo:cpo + 2]
                 variants.append(("%s%d" % (kind, k), bytes(b)))
         for vtag, db in variants:
             cid = p["pid"] + vtag
@@ -851,7 +970,7 @@ def build_project_cases(ctx, projs, mutate):
             if len(g) != 4 or g[2] != "1":
                 ok = False; break
             content = body["pcode"] + bytes.fromhex(g[0])
-            streams.append(("".join(chr(p["table"][x]) for x in body["stream"]), content))
+            streams.append((p["decode"](body["stream"]), content))
         if not ok:
             ctx.disagreements.append({"function": "generator_valid(module chunks)", "case": cid, "impl": "python", "model": "invalid"})
             continue
@@ -883,10 +1002,10 @@ def build_project_cases(ctx, projs, mutate):
                 refs, dmods = p["expected"].split("|D")
                 final = {}
                 for body in p["bodies"]:
-                    final[scalars_hex(body["name"], p["table"])] = body["source"]
+                    final[scalars_hex(body["name"], p)] = body["source"]
                 items = sorted(final.items(), key=lambda kv: bytes.fromhex(kv[0]).decode("utf-8"))
                 expected = "ok|" + refs + "|M" + ",".join(
-                    "%s=%s=%s" % (n, src.hex(), scalars_hex(src, p["table"])) for n, src in items)
+                    "%s=%s=%s" % (n, src.hex(), scalars_hex(src, p)) for n, src in items)
         elif not c["mut"] and fault is None and not p["cp_known"]:
             expected = "err"
         out.append({"cid": cid, "line": line, "expected": expected, "p": p, "mut": c["mut"], "fault": fault,
@@ -953,6 +1072,9 @@ def run_project_files(ctx, cases, model, limit):
             ctx.traces += 1
             ctx.count("project_file:" + kind)
             ctx.count("project_file_outcome:" + (i or "none").split("|")[0])
+            for t in c["p"].get("tags", []):
+                if t.startswith("project_text:multibyte") and c["expected"] is not None and c["expected"].startswith("ok"):
+                    ctx.count("project_file_" + t[8:])       # multi-byte text through Reader::vba_project
             if c["expected"] is not None and c["p"].get("known", "-") != "-":
                 if i != m:
                     ctx.disagreements.append({"function": "Reader::vba_project(%s)" % kind, "case": line, "impl": i, "model": m})
@@ -965,22 +1087,36 @@ def run_project_files(ctx, cases, model, limit):
         if not os.environ.get("VERIF_KEEP_TMP"):
             shutil.rmtree(d, ignore_errors=True)
 
-# fixed project descriptions: the Coq witness of known class 1 (OvbaDir_proofs.ex_proj_nameless),
-# the same with the NameRecord present, and a nameless reference in first position
+# fixed project descriptions, compared against the SPEC (extracted expected_refs): the witness
+# of the former known class nameless_reference (OvbaDir_proofs.ex_proj_nameless: before the fix:
+# commit the code listed ONE reference std/Foo/C:\\s.tlb), the same with the NameRecord present,
+# nameless references first / last / several in a row, of the three reference kinds
 _L1 = "2a5c477b307d23322e30233023433a5c732e746c62234f4c45"   # *\\G{0}#2.0#0#C:\\s.tlb#OLE
 _L2 = "2a5c477b317d23312e30233023443a5c742e746c6223466f6f"   # *\\G{1}#1.0#0#D:\\t.tlb#Foo
+_PJ = "2a5c43453a5c702e786c736d 2a5c4370 1 2"                  # *\\CE:\\p.xlsm  *\\Cp
+_GUID = "00112233445566778899aabbccddeeff"
 _INFO = "I 1 ~ 1033 1033 1252 564241 - - - - 0 0 1 2 - - 0"
+_STD = "G 1 737464 730074006400 " + _L1
 FIXED_PROJECTS = [
-    _INFO + "|G 1 737464 730074006400 " + _L1 + "|G 0 - - " + _L2,
-    _INFO + "|G 1 737464 730074006400 " + _L1 + "|G 1 666f6f 66006f006f00 " + _L2,
-    _INFO + "|G 0 - - " + _L2 + "|G 1 737464 730074006400 " + _L1,
+    _INFO + "|" + _STD + "|G 0 - - " + _L2,                                     # the old witness
+    _INFO + "|" + _STD + "|G 1 666f6f 66006f006f00 " + _L2,
+    _INFO + "|G 0 - - " + _L2 + "|" + _STD,                                     # nameless first
+    _INFO + "|" + _STD + "|J 0 - - " + _PJ,                                     # nameless PROJECT last
+    _INFO + "|J 0 - - " + _PJ + "|" + _STD + "|J 0 - - " + _PJ,
+    _INFO + "|" + _STD + "|C 0 - - " + _L2 + " " + _L1 + " ~ ~ " + _L1 + " " + _GUID + " 5",    # nameless CONTROL with ORIGINAL
+    _INFO + "|" + _STD + "|C 0 - - ~ " + _L2 + " 58 5800 " + _L1 + " " + _GUID + " 5",          # … without, extended name
+    _INFO + "|C 0 - - ~ " + _L2 + " ~ ~ " + _L2 + " " + _GUID + " 0|" + _STD,
+    _INFO + "|G 0 - - " + _L1 + "|G 0 - - " + _L2 + "|J 0 - - " + _PJ + "|C 0 - - " + _L1 + " " + _L2 + " ~ ~ " + _L2 + " " + _GUID + " 1",   # all nameless, a run of four
+    _INFO + "|" + _STD + "|G 0 - - " + _L2 + "|G 0 - - " + _L1 + "|G 1 7a 7a00 " + _L2,          # two in a row in the middle
+    _INFO + "|G 1 - - " + _L1 + "|G 0 - - " + _L2,                              # a NameRecord holding the empty name
 ]
 
 def run_projects(ctx, n_valid, n_mut_projects, n_mut_each):
     rng = ctx.rng
     projs = [gen_project(rng, "p%d" % k, ctx.tier) for k in range(n_valid)]
-    projs += [{"pid": "fx%d" % k, "desc": d, "dec": "id", "table": list(range(256)), "cp": 1252, "bodies": [],
-               "cp_known": True} for k, d in enumerate(FIXED_PROJECTS)]
+    projs += [{"pid": "fx%d" % k, "desc": d, "dec": "id", "table": list(range(256)), "decode": make_decoder(list(range(256)), False),
+               "cp": 1252, "bodies": [], "cp_known": True, "tags": ["project:fixed_nameless_regression"]}
+              for k, d in enumerate(FIXED_PROJECTS)]
     cases = build_project_cases(ctx, projs, 0)
     mprojs = [gen_project(rng, "q%d" % k, ctx.tier, single_byte_only=True) for k in range(n_mut_projects)]
     cases += build_project_cases(ctx, mprojs, n_mut_each)
@@ -996,6 +1132,8 @@ def run_projects(ctx, n_valid, n_mut_projects, n_mut_each):
         if not c["mut"] and not c["fault"]:
             ctx.count("project_codepage:%d" % p["cp"])
             ctx.count("project_modules:%d" % len(p["bodies"]))
+            for t in p.get("tags", []):
+                ctx.count(t)
         ctx.nontrivial(c["line"].split("\t", 2)[2][:4000])
         if i == "bad-case":
             ctx.disagreements.append({"function": "cfb_write(generator)", "case": c["line"][:3000], "impl": i, "model": m})
